@@ -275,6 +275,8 @@ class World:
                 f = rhu(rate * total)
                 if f > 0 or rng.random() < 0.2:
                     fee = (f, quote)
+        if not c.bid_fee and rng.random() < 0.06:
+            fee = (0, quote)                         # an explicit zero fee coin on a contract without a bid fee
         due = total + (fee[0] if fee else 0)
         if rng.random() < 0.02:
             # sizes / totals at the 96-bit capacity of the decimal type, consistent with each other if the
@@ -481,6 +483,12 @@ class World:
         ex = maybe(lambda: sorted(set(rng.sample(self.accounts, rng.randint(0, 2)) + c.executors[:1]))
                    if rng.random() < 0.8 else rng.sample(self.accounts, rng.randint(0, 1)), 0.25)
 
+        if ap is not None and c.approvers and rng.random() < 0.15:
+            keep = rng.sample(c.approvers, max(1, len(c.approvers) - 1))
+            ap = keep + [rng.choice(keep) for _ in range(len(c.approvers) - len(keep) + rng.randint(0, 1))]
+        if ex is not None and len(c.executors) > 1 and rng.random() < 0.15:
+            ex = [c.executors[0]] * len(c.executors)
+
         def pair(cur):
             r = rng.random()
             if r < 0.55:
@@ -576,8 +584,10 @@ class World:
             if r["fee"] is None:
                 r["fee"] = rng.choice([(0, q), (1, q)])
             else:
+                others = [d for d in c.quotes + [c.base] + c.conv if d != q] or ["zz"]
                 r["fee"] = rng.choice([None, (r["fee"][0] + 1, q), (max(0, r["fee"][0] - 1), q),
-                                       (r["fee"][0], "zz"), (0, q)])
+                                       (r["fee"][0], "zz"), (0, q), (r["fee"][0], rng.choice(others)),
+                                       (r["fee"][0], rng.choice(others))])
         return r
 
     # ------------------------------------------------------------------ one step
@@ -706,7 +716,7 @@ def migration_history(w, hn):
         size = inc * lots
         u = rng.choice([2, 5, 10, 25])
         total = u * size // 10 ** p
-        feeamt = rhu(Fraction(rate) * total) if bidfee != "-" else 0
+        feeamt = rhu(Fraction(rate) * total) if (bidfee != "-" or rng.random() < 0.15) else 0
         fee = "%d:qa" % feeamt if feeamt else "-"
         owner = rng.choice(w.accounts)
         price = price_str(u, p, rng)
